@@ -47,6 +47,14 @@ def long_runs(n, blank=' '):
             'bra {' + 'a' * n, 'bra {' + '1' * n + ' x', 'bra { ' + 'lbl_' * (n // 4 + 1) + ' + 1', 'ldx [sp+' + 'L' * n, 'ldx [' + 'q' * n + ' x]',
             'lix sp+' + 'L' * n + ' x', 'liy [a+' + '7' * n, 'sel ' + 'k' * n + ' k', 'mv2 a, ' + 'w' * n + ' 1', 'ldq [' + '9' * n,
             'psh ' + 'p' * n + '++', 'inr ' + 'r' * n + ' r', 'jmp ' + 'j' * n + ' +', 'bra {' + 'a' * n + '} x',
+            # long names on preprocessor and zone lines that cannot be completed (a dropped or wrong closing quote, junk behind)
+            '#include "' + 'inc_' * (n // 4 + 1) + '.asm', '#include "' + 'a' * n + ".asm' x", '#include ' + 'a' * n + '.asm',
+            '#include "' + 'a.' * (n // 2 + 1) + 'asm"x"', '#include "' + 'dir-' * (n // 4 + 1) + 'f.asm" "', "#include '" + '_' * n,
+            '#require "bespokeasm >= ' + '1' * n, '#require "' + 'b' * n + '" x', '#require "bespokeasm >= 0.' + '0' * n + '.x"',
+            '#define ' + 'D' * n + ' ' + '(' * min(n, 200), '#define ' + 'D' * n + '(', '#define 9' + 'D' * n + ' 1',
+            '#create_memzone ' + 'Z' * n + ' 1 x', '#create_memzone ZRUN 1 ' + '9' * n + ' q', '#create_memzone ZRUN ' + '$' + 'f' * n,
+            '.memzone ' + 'Z' * n + ' x', '.org 1 "' + 'Z' * n, '.org 1 "' + 'Z' * n + '" "', '#ifdef ' + 'S' * n + ' S', '#ifndef ' + '9' * n,
+            '#elif ' + 'e' * n, '#mute ' + 'm' * n, '#' + 'x' * n,
             # long conditional chains and deep nesting (work must not multiply per branch / level)
             '\n'.join(['#if 0', '.byte 1'] + ['#elif 0\n.byte 2'] * min(n, 120) + ['#else', '.byte 3', '#endif']),
             '\n'.join(['#if 0', '.byte 1'] + ['#elif 0\n.byte 2'] * min(n, 120) + ['#elif 1', '.byte 3', '#endif']),
